@@ -202,6 +202,59 @@ def build_script(seed, size=1.0, micro=False):
     return pre.lines, par.lines
 
 
+def long_history_script(seed, tier):
+    """One thread, a long call history that is PERIODIC at the scales where small counters wrap (256 and 65536 calls or
+    Pippenger windows) and that returns to earlier operands after more distinct operands than any plausible cache
+    holds. Every result is judged against the model, so any dependence on the history shows as a wrong value."""
+    rng = G.rng_for(seed, ID, "long-history")
+    s = H.Script()
+    g1, g2 = g1_gen(), g2_gen()
+    P1 = [V.aff(1, E1.mul(rng.randrange(1, R), g1)) for _ in range(3)]
+    P2 = [V.aff(2, E2.mul(rng.randrange(1, R), g2)) for _ in range(3)]
+    # (a) G1 and G2 multi-scalar multiplications interleaved with identical sparse scalars and windows
+    sparse = [V.RR(sum(1 << rng.randrange(255) for _ in range(2))) for _ in range(2)]
+    for rep in range(4):
+        for w in (2, 3, 5):
+            s.op("g1.msm_pip", V.lst(P1[:2]), V.lst(sparse), V.n(w))
+            s.op("g2.msm_pip", V.lst(P2[:2]), V.lst(sparse), V.n(w))
+        s.op("g1.msm", V.lst(P1[:2]), V.lst(sparse))
+        s.op("g2.msm", V.lst(P2[:2]), V.lst(sparse))
+    # (b) periodic sparse history: for window w a call runs ceil(256/w) window iterations; after 65536 iterations the same
+    #     calls are issued again (a 16-bit epoch / generation counter would have wrapped exactly once)
+    zero = s.op("g1.msm_pip", V.lst(P1[:1]), V.lst([V.RR(0)]), V.n(4))            # warm-up, also a register for reuse
+    lst1 = V.lst(P1[:1])
+    for w, per_call in ((4, 64), (8, 32)):
+        ncalls = 65536 // per_call
+        marks = {rng.randrange(ncalls): (rng.randrange(1, 1 << w), rng.randrange(0, 250 // w)) for _ in range(6)}
+        for _pass in range(2):
+            for i in range(ncalls):
+                if i in marks:
+                    d, pos = marks[i]
+                    s.op("g1.msm_pip", lst1, V.lst([V.RR(d << (pos * w))]), V.n(w))
+                elif i % 97 == 0 or tier != "quick":
+                    s.op("g1.msm_pip", lst1, "l:R:0", V.n(w))
+                else:
+                    s.raw("%d g1.msm_pip %s l:R:0 n:%d" % (s.next, V.fmt(lst1) if False else "l:" + V.fmt(P1[0]), w)); s.next += 1
+    # (c) more distinct G2 operands than any plausible cache holds, then all of them again; same for hostile decodings
+    Q = [s.op("g2.to_affine", s.op("g2.amul", V.aff(2, g2), V.RR(k))) for k in range(1, 301 if tier != "quick" else 70)]
+    A1 = V.aff(1, g1)
+    for _pass in range(2):
+        for q_ in Q:
+            s.op("pairing", A1, q_)
+    so = G.small_order_points(1, rng)
+    host = []
+    for k in range(1, 40):
+        Pn = E1.add(E1.mul(k, g1), so[3])            # on the curve, outside the subgroup
+        host.append(V.b(EN.encode(1, Pn, True)))
+    for _pass in range(3):
+        for b_ in host:
+            s.op("g1.dec_c", b_)
+    for _pass in range(2):
+        for k in range(60):
+            s.op("g1.hash", V.s("sha256"), V.b(b"m%d" % k), V.b(b"long-history"))
+    return s.text()
+
+
 # ---------------------------------------------------------------------------- running
 
 def cpu_seconds(pid):
@@ -437,6 +490,33 @@ def main(tier, seed, procs):
                                                    expected="same raw output as in another call order: " + rel_S[i][:500], observed=out[:500], script=seq))
                         break
             res.info["history orders compared"] += 1
+        # ---- long sequential history (periodic at counter-wrap scales, returns to earlier operands), judged by the model
+        lh = long_history_script(seed, tier)
+        sp, lp = os.path.join(wd, "longhist.txt"), os.path.join(wd, "longhist.log")
+        open(sp, "w").write(lh)
+        rcx, secs, errx = H.run_driver(H.build("rel"), sp, lp, 1800)
+        recs = H.parse_script(lh)
+        ended, open_ids = H.apply_log(recs, open(lp).read() if os.path.exists(lp) else "", "rel-long-history")
+        if rcx != 0 or not ended:
+            res.inconclusive.append("long-history run failed rc=%s" % rcx)
+        else:
+            H.resolve_args(recs)
+            ctx = spec.Ctx(recs, "rel-long-history")
+            ctx.cache["share"] = {}
+            for r in recs.values():
+                if r.status in ("missing", "bad") or r.args is None:
+                    continue
+                try:
+                    v = judge_par(ctx, r, res)
+                except Exception:
+                    import traceback
+                    res.inconclusive.append("monitor error on long-history op %d: %s" % (r.id, traceback.format_exc()[-300:]))
+                    continue
+                if v is not None and v is not spec.SKIP:
+                    res.violations.append(dict(kind="history-dependence", build="rel-long-history", id=r.id, line=r.line[:1500],
+                                               expected=str(v)[:800], observed=r.status, script=lh))
+                    break
+            res.info["long-history ops judged"] += len(recs)
         miri_pump(mst)
         # ---- TSan
         for probes in (True, False):
@@ -591,8 +671,35 @@ def replay(d, meta):
     the sequential baseline, the baseline against the model, and sanitizer report count."""
     script = open(os.path.join(d, "script.txt")).read()
     if "PAR" not in script.split("\n"):
-        print("INCONCLUSIVE property=C20 reason=replay script has no parallel section")
-        return 2
+        # a sequential history (history-dependence finding): re-run it in order and re-judge every record with the model
+        res = H.ShardResult()
+        wd = H.work_dir("c20-replay", 0)
+        try:
+            sp, lp = os.path.join(wd, "s.txt"), os.path.join(wd, "s.log")
+            open(sp, "w").write(script)
+            rcx, secs, errx = H.run_driver(H.build("rel"), sp, lp, 1800)
+            recs = H.parse_script(script)
+            ended, open_ids = H.apply_log(recs, open(lp).read() if os.path.exists(lp) else "", "rel-history")
+            if rcx != 0 or not ended:
+                print("INCONCLUSIVE property=C20 reason=replay run failed rc=%s" % rcx)
+                return 2
+            H.resolve_args(recs)
+            ctx = spec.Ctx(recs, "rel-history")
+            ctx.cache["share"] = {}
+            for r in recs.values():
+                if r.status in ("missing", "bad") or r.args is None:
+                    continue
+                v = judge_par(ctx, r, res)
+                if v is not None and v is not spec.SKIP:
+                    print("VIOLATION property=C20 replay=%s" % d)
+                    print("  build=rel-history op: %s" % r.line[:300])
+                    print("  expected: %s" % str(v)[:300])
+                    print("  observed: %s" % r.status)
+                    return 1
+        finally:
+            shutil.rmtree(wd, ignore_errors=True)
+        print("OK property=C20 replay passes on the current tree (%d comparisons)" % res.evals)
+        return 0
     lines = script.split("\n")
     k = lines.index("PAR")
     pre, par = [l for l in lines[:k] if l.strip()], [l for l in lines[k + 1:] if l.strip()]
